@@ -7,6 +7,7 @@ import (
 	"reflect"
 	"time"
 
+	"github.com/philpearl/plenc"
 	"google.golang.org/protobuf/proto"
 	"google.golang.org/protobuf/reflect/protodesc"
 	"google.golang.org/protobuf/reflect/protoreflect"
@@ -556,6 +557,11 @@ func c12Case(c *core.Ctx, idx int) {
 	}
 	p := instNew(protoCfg)
 	tc := &tcase{cfg: protoCfg, name: "protoArrays+protoTime", p: p, typ: typ}
+	// long-lived instances (see sharedInst): default and proto mode, with the codecs of earlier cases
+	longProto := sharedInst(&tcase{cfg: protoCfg, name: "c12-proto"})
+	defCfg := cfgs[0]
+	defCfg.Null, defCfg.JSONAny = false, false
+	longDef := sharedInst(&tcase{cfg: defCfg, name: "c12-default"})
 	if _, err := p.CodecForType(typ); err != nil {
 		rec.Violation("valid-type-rejected", fmt.Sprintf("%v\n  type %s", err, typeString(typ)), nil)
 		return
@@ -594,6 +600,22 @@ func c12Case(c *core.Ctx, idx int) {
 		noteShape(c, tc, v)
 		desc := func() string {
 			return fmt.Sprintf("\n  type %s\n  value %s\n  bytes %s", typeString(typ), model.Show(v), hexHead(data))
+		}
+		// 0. instances that have seen other types before produce the same bytes as fresh ones
+		if j%3 == 0 {
+			for _, li := range []struct {
+				p    *plenc.Plenc
+				cfg  model.Cfg
+				name string
+			}{{longProto, protoCfg, "proto-mode"}, {longDef, defCfg, "default-mode"}} {
+				got, err, pn := marshal(li.p, nil, ptrTo(v))
+				want := li.cfg.Encode(v)
+				rec.Eval(1)
+				if err != nil || pn != "" || !(bytes.Equal(got, want) || (model.HasMultiMap(v) && len(got) == len(want))) {
+					rec.Violation("history-dependent", fmt.Sprintf("a long-lived %s instance that has built codecs for other types (tagged and untagged uses of the same slice and map types) encodes this value differently from the documented encoding: %v %s\n  type %s\n  value %s\n  got  %s\n  want %s", li.name, err, trunc1(pn), typeString(typ), model.Show(v), hexHead(got), hexHead(want)), historyExtra(c, tc, v, got))
+					return
+				}
+			}
 		}
 		// 1. well-formed: walks with the strict parser, only wire types 0,1,2,5, every length exact
 		if len(data) > 0 {
